@@ -5,6 +5,18 @@ V = os.path.dirname(os.path.dirname(os.path.abspath(__file__)))
 ALL = ["C%02d" % i for i in range(1, 20)]
 TECH = "symbolic execution of the real /repo source on z3 bit-vector proxies (symx), per-path SMT queries, concrete replay"
 CLAIMED = {
+ "C07": dict(text="Bounded symbolic verification of both real device classes and all 38 facade methods over stub bindings: the "
+                  "status byte (all 256 values), the binding outcome and every sense byte are solver variables; per path z3 "
+                  "decides 'normal return => GOOD', CheckCondition carries the target's key/ASC/ASCQ, named errors, no "
+                  "result decoded from garbage.", ref="3/C07",
+             note="stub bindings' contracts (stubs/env.py); sense <= 18 bytes quick / 252 thorough; <= 3 preceding commands"),
+ "C16": dict(text="Bounded symbolic verification: INQUIRY byte 0 of every attached device symbolic (256 values), attach "
+                  "histories of length <= 3 over plain and real device objects; selection decided per path by z3.",
+             ref="3/C16", note="stub bindings; type->set table is the property's"),
+ "C17": dict(text="Bounded symbolic verification: every refusal class through the facade with all other arguments symbolic and "
+                  "the refused quantity ranging over its invalid domain; the solver decides path feasibility, i.e. that no "
+                  "feasible path returns or reaches the device.", ref="3/C17",
+             note="recording device stands for any transport; one descriptor per EXTENDED COPY list"),
  "C01": dict(text="Bounded symbolic verification of the real constructors and facade methods: every CDB argument is a solver "
                   "variable of its full field width; each emitted byte is compared with an independently transcribed "
                   "layout by an unsat query. All values within field widths are covered; structure (42+ classes x defining "
